@@ -59,4 +59,10 @@ theorem fb_phase_is_gauge_step (i : Nat) (s s' : Exec.Shared) (l l' : Run.Local)
     cases o <;> simp [toFb] at hg <;> subst hg <;> simp [toFb, Gauge.step] <;> exact ⟨_, _, ⟨rfl, rfl⟩, rfl, rfl, rfl⟩
   case done o => simp [Exec.step] at h
 
+/-- … and inside `c.run` a thread of the whole-Execute model takes exactly `Run.step` — the step function `run`'s body is tied to
+    under arbitrary interference (GoTie/I_Run), on the `r` part of the shared state, leaving everything else alone -/
+theorem run_phase_is_run_step (i : Nat) (s : Exec.Shared) (l : Run.Local) (fb : FbScript) (hnd : ∀ r, l.pc ≠ .done r) :
+    Exec.step i s (.call l fb .running) = (Run.step i s.r l).map fun p => ({ s with r := p.1 }, .call p.2 fb .running) := by
+  cases hl : l.pc <;> simp_all [Exec.step]
+
 end CM.Props.ExecFbView
